@@ -80,6 +80,15 @@ Theorem C04_templated_untouched : forall tf sl t p k,
 Proof. exact tree_ok_untouched. Qed.
 Print Assumptions C04_templated_untouched.
 
+(** Every untemplated final tree whose root spans the file is [tree_ok] (one literal slice): the untemplated
+    clause [C04_untemplated] is the instance "no placeholder" of [C04_templated]
+    ([TemplatedFacts.untemplated_from_templated]). *)
+Theorem C04_tree_ok_untemplated : forall tf t,
+  untemplated tf -> spans_file tf t -> root_sfx t = [] ->
+  tree_ok tf [Templ.Model.mk_ts Templ.Model.SLit 0 (len (src tf)) 0 (len (src tf))] t = true.
+Proof. exact tree_ok_untemplated. Qed.
+Print Assumptions C04_tree_ok_untemplated.
+
 (** The same with the placeholder templater in the loop (Templ/Model.v, C15): when the templated file is what
     [process] makes of the source (captures [caps] as the regex engine returned them, contract [caps_ok]) and the
     final tree is [tree_ok], the fixed source is literal pieces woven around the captures' own texts, and the
